@@ -143,6 +143,22 @@ def campaign(c):
             if len(f) != 1 or f[0][14:] != want:
                 c.violation('sem:arg-order', 'arguments were not evaluated left to right exactly once', dict(src=src.decode()))
         c.case(('ord', i), dict(kind='order', src=src.decode()[:300]))
+    # (i) the spelling of a bound name is irrelevant (alpha-renaming): templates with deferred emission, re-binding and use,
+    #     instantiated with identifiers of every shape the lexer accepts, behave exactly as with a plain name
+    templates = [('deferred', 'import ipv4;\nlet t = ipv4::tcp::flow(1.2.3.4:1, 5.6.7.8:2);\nlet NAME = t.client_message("abc");\nt.server_message("x");\nNAME;\nNAME;\n'),
+                 ('rebind', 'import eth;\nlet NAME = eth::frame("|000000000001|", "|000000000002|");\nNAME;\nlet NAME = 2;\n'),
+                 ('use', 'import eth;\nimport std;\nlet NAME = 7;\neth::frame("|000000000001|", "|000000000002|", std::be64(NAME));\nlet other = NAME;\neth::frame("|000000000001|", "|000000000002|", std::be64(other));\n'),
+                 ('unused', 'import eth;\nlet NAME = eth::frame("|000000000001|", "|000000000002|", "never emitted");\neth::frame("|000000000001|", "|000000000002|");\n')]
+    for tname, tmpl in templates:
+        ref = core.run_cli(tmpl.replace('NAME', 'keep').encode())
+        ro = core.classify_cli(ref)
+        for ident in ['_', '__', '_a', '_1', 'a_', 'A', 'Z_9', 'lets', 'importer', 'true_', 'falsey', 'x' * 200, 'keep2', 'e', 'l0', 'ipv4x', 'eth_']:
+            src = tmpl.replace('NAME', ident).encode()
+            impl, model = progdiff.run_both(c, src)
+            progdiff.compare(c, src, impl, model, 'alpha')
+            if impl['outcome'][:2] != ro[:2] or impl['file'] != ref['pcap']:
+                c.violation('sem:alpha-renaming', 'template %s behaves differently when the bound name is spelled `%s`: %s vs %s' % (tname, ident[:20], impl['outcome'], ro), dict(src=src.decode()[:2000]))
+            c.case(('alpha', tname, ident), dict(kind='alpha', template=tname, ident=ident[:20]) if ident in ('_', 'A') else None)
     # (h) variables and modules live in separate namespaces (the shipped examples rely on it: `import dns; let dns = flow`):
     #     a let of a module's name placed before or after that module's import must not disturb either
     tops = {}
